@@ -67,6 +67,56 @@ pub fn cval(graph: &Graph, v: &Value) -> CVal {
     }
 }
 
+/// As `cgraph`, but every syntax-node value also carries the node's id, so that nodes of
+/// different live trees with equal kind and range stay distinct (histories over several trees).
+pub fn cgraph_ids(graph: &Graph) -> CGraph {
+    fn tag(graph: &Graph, v: &Value) -> CVal {
+        match v {
+            Value::List(l) => CVal::List(l.iter().map(|x| tag(graph, x)).collect()),
+            Value::Set(s) => CVal::Set(s.iter().map(|x| tag(graph, x)).collect()),
+            Value::SyntaxNode(r) => {
+                let n = &graph[*r];
+                CVal::Syn {
+                    shown: format!("{}#{:x}", r, n.id()),
+                    kind: n.kind().to_string(),
+                    start: n.start_byte(),
+                    end: n.end_byte(),
+                }
+            }
+            other => cval(graph, other),
+        }
+    }
+    fn attrs(graph: &Graph, a: &Attributes) -> CAttrs {
+        a.iter().map(|(k, v)| (k.as_str().to_string(), tag(graph, v))).collect()
+    }
+    let mut out = CGraph::default();
+    for n in graph.iter_nodes() {
+        let gn = &graph[n];
+        let mut cn = CNode { attrs: attrs(graph, &gn.attributes), edges: Vec::new() };
+        for (sink, e) in gn.iter_edges() {
+            cn.edges.push((sink.index() as u32, attrs(graph, &e.attributes)));
+        }
+        out.nodes.push(cn);
+    }
+    out
+}
+
+/// The tagged rendering `cgraph_ids` gives a syntax node.
+pub fn syn_with_id(n: &tree_sitter::Node) -> CVal {
+    CVal::Syn {
+        shown: format!(
+            "[syntax node {} ({}, {})]#{:x}",
+            n.kind(),
+            n.start_position().row + 1,
+            n.start_position().column + 1,
+            n.id()
+        ),
+        kind: n.kind().to_string(),
+        start: n.start_byte(),
+        end: n.end_byte(),
+    }
+}
+
 pub fn cattrs(graph: &Graph, a: &Attributes) -> CAttrs {
     a.iter()
         .map(|(k, v)| (k.as_str().to_string(), cval(graph, v)))
